@@ -90,6 +90,8 @@ var variantSnippets = []string{
 	"for ((i = 0; i < 3; i++)); do :; done", "((x++)); [[ -n $a && ( b == c* || ! -f d ) ]]", "cat <<-EOF\n\tbody $x\n\tEOF\n", "cat <<'E' | cat <<E2\nq\nE\nw\nE2\n",
 	"echo `a \\`b\\`` $(c) $((d[1] ** 2))", "x=1 y=2 cmd >out 2>&1 <in", "f() ( : ); g() if a; then b; fi", "a=b local c readonly d=e export f",
 	"# lead\nfoo # trail\n# last\n", "case i in\nx)\n\ta\n\t;;\n\t#a\n#b\n\t#c\ny) ;;\nesac", "a=(\n\tx # c1\n\t# c2\n\ty\n)\n",
+	// comments glued to the token that ends a statement (a comment starting exactly at Stmt.End(); seeded change C14-3)
+	"foo;#c1\nbar&#c2\n(baz)#c3\n((x))#c4\nqux >f;#c5\necho $(a;#c6\n)\n{ b;};#c7\n", "a=(x)#c\ncase v in a) b;;#d\nesac;#e\nif a;then b;fi;#g\n", "foo;#c\n", "(a)#c\n",
 }
 
 func variantSnippetSources() []string {
